@@ -73,8 +73,39 @@ def predicate(tr, rep):
             break
 
 
+def parallel_budget(ctx, rep):
+    """n_jobs > 1 (process-based workers): the budget accounting must be the parent's — get_remains_calls() is
+    iters*pop_size minus the individuals evaluated, with and without genotype_to_phenotype"""
+    import thefittest.optimizers as O
+    import c16_objectives as CO
+    plans = [("GeneticAlgorithm", dict(str_len=6), CO.onemax, None), ("GeneticAlgorithm", dict(str_len=6), CO.weighted, CO.bits_to_pm1),
+             ("DifferentialEvolution", dict(left_border=-2.0, right_border=2.0, num_variables=2), CO.sphere, CO.halve),
+             ("SHAGA", dict(str_len=6), CO.onemax, None), ("SelfCGA", dict(str_len=6), CO.weighted, CO.bits_to_pm1)]
+    for kind, kw, f, g in plans[: ctx.pick(5, 5)]:
+        for nj in ((2,) if ctx.quick else (2, 3)):
+            iters, pop, seed = ctx.rng.choice([3, 4]), ctx.rng.choice([8, 9]), ctx.rng.randrange(1 << 30)
+            seen = []
+            opt = getattr(O, kind)(f, iters=iters, pop_size=pop, n_jobs=nj, keep_history=True, random_state=seed, genotype_to_phenotype=g,
+                                   on_generation=lambda o: seen.append((int(o._calls), int(o.get_remains_calls()))), **kw)
+            opt.fit()
+            rep.traces += 1
+            rep.count("parallel-budget", (kind, nj, g is not None, seed))
+            gens = len(opt.get_stats()["fitness"])
+            case = dict(kind=kind, n_jobs=nj, iters=iters, pop_size=pop, g2p=g is not None, random_state=seed, generations=gens)
+            if gens != iters or opt.get_remains_calls() != iters * pop - pop * gens or int(opt._calls) != pop * gens:
+                rep.problem("budget", f"{kind} with n_jobs={nj}: get_remains_calls() = {opt.get_remains_calls()} after {gens} generations of {pop} "
+                            f"individuals out of a budget of {iters * pop} (calls counted: {int(opt._calls)})", case, "budget:parallel", True,
+                            int(opt.get_remains_calls()), iters * pop - pop * gens, "C03_budget")
+            for i, (c, r) in enumerate(seen):
+                if c != pop * (i + 2) or r != iters * pop - pop * (i + 2):
+                    rep.problem("budget", f"{kind} with n_jobs={nj}: at the callback after generation {i + 1} calls={c}, remains={r}", dict(case, callback=i),
+                                "budget:parallel", True, (c, r), (pop * (i + 2), iters * pop - pop * (i + 2)), "C03_budget")
+                    break
+
+
 def run(ctx, rep):
     _loop.run_all(ctx, rep, "C03", predicate, 40, 400)
+    parallel_budget(ctx, rep)
 
 
 def replay(ctx, rp):
